@@ -58,8 +58,10 @@ type Lowerer struct {
 	currentFunc    *ir.Function
 	currentFuncIdx ir.FunctionHandle
 	currentExprIdx ir.ExpressionHandle
-	isInsideLoop   bool // true when lowering statements inside a loop body
-	isStatement    bool // true when lowering an expression as a statement (ExprStmt)
+	isInsideLoop   bool        // true when lowering statements inside a loop body
+	isStatement    bool        // true when lowering an expression as a statement (ExprStmt)
+	stmtRootExpr   parser.Expr // the expression of the ExprStmt being lowered (the only call allowed to yield no value)
+	lastCallVoid   bool        // set by lowerCall when the call it lowered yields no value
 
 	// nonConstExprs tracks expression handles that are forced non-const.
 	// WGSL spec: "let" binding initializers are not const expressions.
@@ -3937,8 +3939,10 @@ func (l *Lowerer) lowerStatement(stmt parser.Stmt, target *[]ir.Statement) error
 		// Evaluate expression for side effects.
 		// Set isStatement flag so atomic calls know their result is discarded.
 		l.isStatement = true
+		l.stmtRootExpr = s.Expr
 		emitStart := l.emitStartWithTarget(target)
 		_, err := l.lowerExpression(s.Expr, target)
+		l.stmtRootExpr = nil
 		if err != nil {
 			l.isStatement = false
 			return err
@@ -5194,7 +5198,16 @@ func (l *Lowerer) lowerExpression(expr parser.Expr, target *[]ir.Statement) (ir.
 	case *parser.UnaryExpr:
 		return l.lowerUnary(e, target)
 	case *parser.CallExpr:
-		return l.lowerCall(e, target)
+		l.lastCallVoid = false
+		handle, err := l.lowerCall(e, target)
+		if err == nil && l.lastCallVoid {
+			l.lastCallVoid = false
+			// Only the call of a call statement may yield no value.
+			if !l.isStatement || l.stmtRootExpr != parser.Expr(e) {
+				return 0, fmt.Errorf("'%s' does not return a value", e.Func.Name)
+			}
+		}
+		return handle, err
 	case *parser.ConstructExpr:
 		return l.lowerConstruct(e, target)
 	case *parser.MemberExpr:
@@ -7481,7 +7494,7 @@ func (l *Lowerer) lowerCall(call *parser.CallExpr, target *[]ir.Statement) (ir.E
 		*target = append(*target, ir.Statement{
 			Kind: ir.StmtBarrier{Flags: barrierFlags},
 		})
-		return 0, nil // Barriers don't return a value
+		return l.voidCallResult() // Barriers don't return a value
 	}
 
 	// Check if this is a type constructor (struct, vector, matrix, scalar, or type alias).
@@ -7582,7 +7595,19 @@ func (l *Lowerer) lowerCall(call *parser.CallExpr, target *[]ir.Statement) (ir.E
 	l.emitStateStart = &newStart
 	l.currentEmitTarget = target
 
+	if !hasResult {
+		return l.voidCallResult()
+	}
 	return resultHandle, nil
+}
+
+// voidCallResult is what lowerCall returns for a call that yields no value
+// (void function, barrier, store-like builtin). It records the fact so that
+// lowerExpression can reject the call where a value is required instead of
+// handing expression handle 0 to the enclosing expression.
+func (l *Lowerer) voidCallResult() (ir.ExpressionHandle, error) {
+	l.lastCallVoid = true
+	return 0, nil
 }
 
 // lowerConstruct converts a type constructor to IR.
@@ -14888,7 +14913,7 @@ func (l *Lowerer) lowerTextureAtomic(name string, args []parser.Expr, target *[]
 	})
 
 	// textureAtomic* functions return nothing in WGSL
-	return 0, nil
+	return l.voidCallResult()
 }
 
 // lowerTextureQuery converts a texture query call to IR.
@@ -15084,7 +15109,7 @@ func (l *Lowerer) lowerAtomicStore(args []parser.Expr, target *[]ir.Statement) (
 		},
 	})
 
-	return 0, nil // No return value
+	return l.voidCallResult() // No return value
 }
 
 // lowerAtomicLoad converts atomicLoad(&ptr) to IR.
@@ -15717,7 +15742,7 @@ func (l *Lowerer) lowerRayQueryCall(name string, args []parser.Expr, target *[]i
 			newStart := l.currentExprIdx
 			l.emitStateStart = &newStart
 		}
-		return 0, nil
+		return l.voidCallResult()
 
 	case "rayQueryProceed":
 		// rayQueryProceed(&rq) -> bool
@@ -15791,7 +15816,7 @@ func (l *Lowerer) lowerRayQueryCall(name string, args []parser.Expr, target *[]i
 				Fun:   ir.RayQueryGenerateIntersection{HitT: hitT},
 			},
 		})
-		return 0, nil
+		return l.voidCallResult()
 
 	case "rayQueryConfirmIntersection":
 		// rayQueryConfirmIntersection(&rq)
@@ -15808,7 +15833,7 @@ func (l *Lowerer) lowerRayQueryCall(name string, args []parser.Expr, target *[]i
 				Fun:   ir.RayQueryConfirmIntersection{},
 			},
 		})
-		return 0, nil
+		return l.voidCallResult()
 
 	case "rayQueryTerminate":
 		// rayQueryTerminate(&rq)
@@ -15825,7 +15850,7 @@ func (l *Lowerer) lowerRayQueryCall(name string, args []parser.Expr, target *[]i
 				Fun:   ir.RayQueryTerminate{},
 			},
 		})
-		return 0, nil
+		return l.voidCallResult()
 
 	default:
 		return 0, fmt.Errorf("unknown ray query function: %s", name)
